@@ -638,6 +638,32 @@ def store_and_read(path, kind, ver, objs, batch=40):
                 res[k] = ("ok", r[k])
             except Exception as e:           # noqa
                 res[k] = ("raised", "read", e)
+        # the other ways of reading a library: items(), values(), iteration, membership, length -- "reads back, under the
+        # same key" holds for each of them (they must agree with r[k]; r[k] itself is judged against what was stored)
+        okk = [k for k in keys if res[k][0] == "ok"]
+        if okk and all(res[k][0] == "ok" or res[k][1] == "write" for k in keys):
+            canon = lambda o: json.dumps(desc_of(describe(o, kind)), sort_keys=True, default=str)
+            prob = {}
+            try:
+                its = list(r.items())
+                vals = list(r.values())
+                listed = list(iter(r))
+                n, ni = len(r), r.n_items
+                want = {k: canon(res[k][1]) for k in okk}
+                if sorted(listed) != sorted(okk) or n != len(okk) or ni != len(okk) or any((k in r) is not True for k in okk) \
+                        or ("no-such-key" in r):
+                    prob[okk[0]] = f"listing: iter()={len(listed)} keys, len()={n}, n_items={ni}; {len(okk)} objects were stored and are readable"
+                if sorted(k for k, _ in its) != sorted(okk):
+                    prob[okk[0]] = f"items() yields {len(its)} keys, {len(okk)} objects were stored"
+                for k, o in its:
+                    if k in want and canon(o) != want[k]:
+                        prob[k] = "items() returns under this key an object that differs from library[key]"
+                if sorted(canon(o) for o in vals) != sorted(want.values()):
+                    prob.setdefault(okk[0], "values() is not the collection of the objects library[key] returns")
+            except Exception as e:           # noqa
+                prob[okk[0]] = f"items()/values()/iteration raised {type(e).__name__}: {e}"[:300]
+            for k, t in prob.items():
+                res[k] = ("ok", res[k][1], t)
     return res
 
 
@@ -975,6 +1001,8 @@ def run_cases(ctx, items):
             r = res[f"k{i}"]
             items[i]["inp"] = describe(items[i]["obj"], kind)
             if r[0] == "ok":
+                if len(r) > 2:
+                    items[i]["view_problem"] = r[2]
                 try:
                     items[i]["back"] = describe(r[1], kind)
                     items[i]["outcome"] = "ok"
@@ -1007,6 +1035,9 @@ def judge_item(it):
         return [(f"{tag}:raises-on-{it['where']}:{type(e).__name__}",
                  f"an object stored in a {'legacy ' if it['ver'] == 1 else ''}library could not be {it['where']} ({type(e).__name__}: {e})"[:400])]
     vs = judge(it["inp"], it["back"], it["ver"])
+    if it.get("view_problem"):
+        vs = vs + [(f"{tag}:views-disagree", "reading the library through items()/values()/iteration/len/membership disagrees with "
+                    "library[key]: " + it["view_problem"])]
     if it.get("step") and it["step"] != "first-store":
         # the value read back is not the state the object had when THIS store was made
         vs = [(s if s in (KNOWN_LIST, KNOWN_DBL, KNOWN_FORDER) else f"{s}:{it['step']}",
